@@ -63,7 +63,12 @@ type Ctx struct {
 	covers   []string
 	recorded []string // expected (label,n) when replaying strictly
 	cost     int
+	noRerun  bool
 }
+
+// NoRerun marks the violations of this execution as too expensive to reproduce five times
+// (a hang that already consumed the watchdog); they are recorded after the one observation.
+func (c *Ctx) NoRerun() { c.noRerun = true }
 
 // Choose returns the choice taken at this point: the recorded prefix first,
 // then 0 (the default). Alternatives 1..n-1 each cost one deviation.
